@@ -270,7 +270,7 @@ Section C05_wire.
       the requested range of each request: every response [send] (as repaired) passes to the connection with a
       non-empty body — the reply of [handle_cache], a range cut out of it, or the 416 page that replaces it —
       carries [vary: accept-encoding, range, <the rule headers, in rule order, of the path the page is cached under>]
-      (for an internal route: of the internal path — since kvarn 100c33a also on the 416 page), provided the Package
+      (for an internal route: of the internal path — since kvarn 31ad067 also on the 416 page), provided the Package
       extensions leave [vary] alone.  A HEAD request gets the same head (the body is withheld after it). *)
   Theorem wire_vary_advertised : forall ops c hs now,
     InvV hstate compute rules_of c ->
@@ -411,7 +411,7 @@ Theorem wire_416_without_vary_v0_refuted :
        w_body w <> [] /\ assoc (B "vary") (w_headers w) = None).
 Proof. exact (conj wire416_v0 send_v0_drops_vary). Qed.
 
-(** (5) after 21f0154 and before the repair 100c33a (model component vary.wire_ov_v0; reproduced on the real code): the 416
+(** (5) after 21f0154 and before the repair 31ad067 (model component vary.wire_ov_v0; reproduced on the real code): the 416
     page that replaces a response of an INTERNAL ROUTE listed the rule headers of the request's own path, not those of the
     internal path the replaced response was cached, selected and advertised under — on the fixture history (public /hi with
     a rule on x-pub, routed to /./lang with a rule on accept-language: the 416 said "x-pub"), and for every page: the reply
